@@ -45,7 +45,7 @@ PROP = Property(
         "Merkle membership of [(vk_j, stake_j)] in signature order against the avk commitment with this proof's batch path; returned operands == [(sigma_j, vk_j)]; verify additionally: "
         "BLS aggregate verification of msg||root on exactly those operands; batch_verify: Ok ==> EACH member passes preliminary_verify with ITS OWN message, aggregate key and parameters, and the batched BLS check ran on "
         "each member's own aggregated (keys, signatures) and its own msg||root",
-        ["ConcatenationProof::preliminary_verify", "ConcatenationProof::verify", "ConcatenationProof::batch_verify", "SingleSignature::check_indices", "SingleSignature::get_concatenation_signature_indices",
+        ["ConcatenationProof::preliminary_verify", "ConcatenationProof::verify", "ConcatenationProof::batch_verify", "AggregateSignature::verify (dispatch)", "AggregateVerificationKey::to_concatenation_aggregate_verification_key", "SingleSignature::check_indices", "SingleSignature::get_concatenation_signature_indices",
          "SingleSignature::get_concatenation_signature_sigma", "SingleSignatureForConcatenation::get_indices", "SingleSignatureForConcatenation::get_sigma",
          "ClosedRegistrationEntry::get_stake", "ClosedRegistrationEntry::get_verification_key_for_concatenation", "AggregateVerificationKeyForConcatenation::get_total_stake"],
         paired_kani=["c01_preliminary_verify_n1_1_0", "c01_preliminary_verify_n1_2_0"])],
@@ -60,6 +60,7 @@ PROP = Property(
         "Verus extraction rewrites for preliminary_verify (complete list in the template): StmResult<T> -> Result<T, AggregationError>; .with_context(..) removed; `for x in self.signatures.clone()` -> `for x in it: self.signatures.iter()`; `for &index in &E` -> `let verif_indices = E; for index in it2: verif_indices.iter() { let index = *index;`; Err(anyhow!(E)) -> Err(E); the iterator expression building `leaves` (filter_map/collect) -> collect_leaves contract (checked by the Kani harnesses); generic parameter <D> dropped",
         "batch_verify rewrites: the three assert_eq! on slice lengths become the precondition; `for (idx, g) in v.iter().enumerate()` -> `for idx in 0..n { let g = &v[idx];`; the three map/collect / zip expressions -> contract fns; `.unwrap()` on BlsSignature::aggregate -> `?`",
         "total number of indices in one aggregate <= usize::MAX (counter overflow precondition; memory-bounded in reality)",
+        "AggregateSignature::batch_verify (grouping by type through HashMap / fold / try_for_each closures) is not under contract; AggregateSignature::verify is (default features: only the Concatenation variant exists)",
         "re-encodings (JSON/CBOR/legacy bytes) are not part of this unit: contracts are on the decoded value (decoders: C05)",
     ],
     explanation="Every clause of C01 is a postcondition over a ghost log of the cryptographic callees' invocations, proved on the real functions by Kani (bounded in the number of signatures/indices) and, for the per-index loop, by Verus on the extracted text without bound.",
